@@ -535,6 +535,15 @@ class DriverImpl(Impl):
                           'returned on that connection %r' % (k, sent[:120], b''.join(want)[:120]))
             elif not last and k == len(socks) - 1 and not self.driver.outbuffer and self.driver.connected and not self.irc.zombie:
                 self.fail('connection %d: %d message(s) returned by takeMsg never reached the socket' % (k, len(want) - j))
+            for ln in sent.split(b'\r\n'):
+                body = ln.split(b' ', 1)[1] if ln.startswith(b'@') and b' ' in ln else ln
+                if len(body) + 2 > 512:
+                    self.fail('connection %d: a line of %d bytes was written to the socket (limit 512): %r...' % (k, len(body) + 2, ln[:60]))
+                if len(body) + 2 == 512: self.tags.add('driver-line-truncated-to-512')
+                try:
+                    ln.decode('utf-8')
+                except UnicodeDecodeError:
+                    self.fail('connection %d: a line was cut inside a multi-byte character: %r' % (k, ln[-20:]))
             if k > 0 and sent and not sent.startswith(b'CAP LS'):
                 self.fail('connection %d starts with %r, not with the registration (CAP LS ...)' % (k, sent[:60]))
             if k > 0: self.tags.add('driver-reconnected')
@@ -772,6 +781,10 @@ def explore(seed_stream, n, n_reuse, maxlen, corpus=(), budget=80.0, n_driver=0)
     rd = rng.make(seed_stream + '-driver')
     for i in range(n_driver):
         ops = gen_ops(rd, maxlen)
+        for op in ops:
+            # over-long lines (ASCII and multi-byte): Irc._truncateMsg must cut them to 512 bytes
+            if op[0] in ('queue', 'send') and op[2] is not None and op[2][2] and rd.random() < 0.08:
+                op[2][2] = list(op[2][2][:-1]) + [rd.choice(['x' * 600, '\u00e9' * 300, 'ab ' * 200 + '\u20ac' * 40])]
         add([(['drun'] if op[0] == 'take' else op) for op in ops], 'driver')
     for i in range(n + n_reuse):
         add(gen_ops(r, maxlen, reuse=(i % (n // max(1, n_reuse) + 1) == 0)), 'gen')
